@@ -223,15 +223,18 @@ CLAIMED["C16"] = dict(
     design_ref="DESIGN.md §7 C16")
 
 CLAIMED["C12"] = dict(
-    text="Proof (Lean 4) over a code-shaped model (SfModel/Meta.lean) of the string table (32 slots, replacement marks, start/end placement, software suffix through the 128-byte buffer, "
-         "store growth), the WAV LIST/INFO writer and parser, bext and cart (de)serialisation with the coding-history / tag-text normalisation (psf_strlcpy_crlf, added line end, added history line, "
-         "even size), the cue and smpl chunks and the accept/refuse guards of the SET calls: strings_store_inv (offsets inside the used store, used <= capacity, for every call sequence), "
-         "info_roundtrip, bext_roundtrip, cart_roundtrip, cue_roundtrip (get after re-open = normalise (set) under explicit limit hypotheses), late_or_unsupported_is_harmless. "
-         "Partial: the full statements are refuted by proved witnesses (2046-byte INFO text, 10 KiB bext bound, cue names, 127-byte software buffer, a refused 33rd sf_set_string erasing the old value) and "
-         "19 known-finding classes are replayed every run (cue names, smpl ranges/detune, AIFF INST, per-container string thresholds, header cache, bext 10 KiB, cart 16 KiB, RIFX endian switch, late re-set, "
-         "AIFF late replacement / sanitising / stale APPL bytes, slot exhaustion, second SFC_SET_CUE, software truncation). Correspondence sampled (seeded scripts: every string length class, UTF-8, "
-         "CR/LF variants, 0..100 cues, 0..16 loops) for WAV/WAVEX/RF64; AIFF, CAF, RIFX, W64, AU are covered by the property predicate on the library's own transcripts only (their writers/parsers are not modelled).",
-    technique="Lean 4 theorems over a hand-written model + sampled correspondence (sfmodel meta vs sfh under ASan) + property predicate (get after re-open = normalise(set), audio unchanged) on the implementation transcript",
+    text="Proof (Lean 4) over code-shaped models: SfModel/Meta.lean (string table: 32 slots, replacement marks, start/end placement, software suffix, store growth; WAV LIST/INFO writer and "
+         "parser; bext and cart (de)serialisation with the coding-history / tag-text normalisation; cue and smpl chunks; accept/refuse guards of the SET calls) and SfModel/MetaX.lean (AIFF "
+         "NAME/AUTH/(c)/ANNO/APPL chunks and MARK, CAF info strings, CHAN/chan chunk with the layout table extracted from chanmap.c each run). Theorems: strings_store_inv, info_roundtrip "
+         "(+ info_roundtrip_table: the 32-bit size hypothesis derived from <= 32 entries), bext_roundtrip and cart_roundtrip at full strength (every block the SET call accepts), cue_roundtrip, "
+         "inst_roundtrip, aiff_text_roundtrip, mark_roundtrip, caf_info_roundtrip, chan_roundtrip, late_or_unsupported_is_harmless at full strength (a refused call leaves the whole handle state), "
+         "late_bext_keeps_size / late_cart_keeps_size, strings_order_independent and meta_order_independent (what the GET calls return does not depend on the order of the SET calls). Nine defects were "
+         "repaired (RIFX endian switch, late bext/cart growth, slot loop of psf_store_string, bext 10 KiB reader bound, second SFC_SET_CUE, AIFF APPL termination, cart size test, over-long AIFF text chunks, "
+         "128-byte software buffer); their old rules are kept as *_old_rule theorems and their witnesses are regression tests run first on every run. Partial: ten known-finding classes remain, each with a proved "
+         "witness or an explicit limit hypothesis and a replayed witness (WAV cue names, smpl ranges and detune sign, AIFF INST, 2046-byte INFO text, AIFF texts >= 8190 bytes, CAF 16 KiB buffer, AIFF late "
+         "replacement, AIFF sanitising, header cache). Correspondence sampled (seeded scripts: every string length class, UTF-8, CR/LF variants, coding histories and tag texts up to the 16 KiB fields, 0..100 cues, "
+         "0..16 loops, channel maps) for WAV/WAVEX/RF64/AIFF/CAF against `sfmodel meta`; RIFX, W64, AU by the property predicate on the library's own transcripts only.",
+    technique="Lean 4 theorems over hand-written models + sampled correspondence (sfmodel meta vs sfh under ASan) + property predicate (get after re-open = normalise(set), audio unchanged) on the implementation transcript",
     design_ref="DESIGN.md §7 C12")
 
 def main():
